@@ -337,7 +337,55 @@ def b_generic_clone(root: Path) -> None:
     p.write_text(ast.unparse(tree) + "\n")
 
 
+def b_tokenizer_stat(root: Path) -> None:
+    """The tokenizer remembers the length of the last buffer (a statistic nothing reads); the parser's token cache is
+    filled through a local variable and dict.get."""
+    p = root / "mathy_core/tokenizer.py"
+    s = p.read_text()
+    old = "        context = TokenContext(buffer=buffer, chunk=str(buffer))\n"
+    assert old in s
+    p.write_text(s.replace(old, old + "        self.last_length = len(buffer)\n"))
+    p = root / "mathy_core/parser.py"
+    s = p.read_text()
+    old = ("        if input_text not in self._tokens_cache:\n"
+           "            self._tokens_cache[input_text] = self.tokenizer.tokenize(input_text)\n"
+           "        return self._tokens_cache[input_text][:]\n")
+    assert old in s
+    p.write_text(s.replace(old, "        tokens = self._tokens_cache.get(input_text)\n"
+                                "        if tokens is None:\n"
+                                "            tokens = self.tokenizer.tokenize(input_text)\n"
+                                "            self._tokens_cache[input_text] = tokens\n"
+                                "        return list(tokens)\n"))
+
+
+def b_new_link_primitive(root: Path) -> None:
+    """A new (correct) link primitive in tree.py, replace_child(), used by ExpressionChangeRule.done()."""
+    p = root / "mathy_core/tree.py"
+    s = p.read_text()
+    old = "    def get_children(self: NodeType) -> List[NodeType]:"
+    assert old in s
+    s = s.replace(old, "    def replace_child(self: NodeType, side: str, child: Optional[NodeType]) -> Optional[NodeType]:\n"
+                       "        \"\"\"Put `child` on the given side and make it point back here.\"\"\"\n"
+                       "        if side == LEFT:\n"
+                       "            self.left = child\n"
+                       "        elif side == RIGHT:\n"
+                       "            self.right = child\n"
+                       "        else:\n"
+                       "            raise ValueError(\"side must be left or right\")\n"
+                       "        if child is not None:\n"
+                       "            child.parent = self\n"
+                       "        return child\n\n" + old)
+    p.write_text(s)
+    p = root / "mathy_core/rule.py"
+    s = p.read_text()
+    old = "            self._save_parent.set_side(node, self._save_side)\n"
+    assert old in s
+    p.write_text(s.replace(old, "            self._save_parent.replace_child(self._save_side, node)\n"))
+
+
 BENIGN: Dict[str, Tuple[Callable[[Path], None], List[str]]] = {
+    "tokenizer-stat": (b_tokenizer_stat, ["C12", "C11", "C10", "C03"]),
+    "new-link-primitive": (b_new_link_primitive, ["C07", "C01", "C06", "C09", "C13"]),
     "comprehension-queries": (b_comprehension_queries, ["C14", "C16", "C01", "C07", "C13"]),
     "generic-clone": (b_generic_clone, ["C13", "C07", "C06", "C09"]),
     "regex-scanner": (b_regex_scanner, ["C11", "C12", "C10"]),
